@@ -109,8 +109,8 @@ func (prop) Generate(rng *sim.Rng, tier string, runIndex int) driver.Scenario {
 	if tier == "thorough" && rng.Intn(4) == 0 {
 		n = rng.Range(5, 20)
 	}
-	dirs := []string{"", "bin/", "lib/", "lib/gcc/", "include/sys/"}
-	names := []string{"a", "b.txt", "tool", "libc.a", "stdio.h", "README"}
+	dirs := []string{"", "bin/", "lib/", "lib/gcc/", "include/sys/", ".config/", "lib/.cache/"}
+	names := []string{"a", "b.txt", "tool", "libc.a", "stdio.h", "README", ".hidden", "..data", "a.", "index"}
 	explicitDirs := rng.Bool()
 	dotSlash := rng.Intn(4) == 0
 	if top != "" && explicitDirs {
@@ -473,12 +473,15 @@ func (prop) Run(scx driver.Scenario, ch *sim.Choices, keep bool) *driver.Result 
 		}
 	}
 	checkable := !kl.hostile && !kl.illform
+	flipped := false
 	for _, r := range sc.Reqs {
 		for _, f := range r.Faults {
 			if f.K == "net-flip" {
-				// a corrupted download is a different archive, possibly a valid one:
-				// what it must contain is unknown (confinement is still asserted)
+				// a corrupted download is a different archive, possibly a valid one
+				// with other entry names: what it must contain, and whether it still
+				// has an escaping entry, is unknown (confinement is still asserted)
 				checkable = false
+				flipped = true
 			}
 		}
 	}
@@ -676,7 +679,7 @@ func (prop) Run(scx driver.Scenario, ch *sim.Choices, keep bool) *driver.Result 
 				continue
 			}
 			if o.err == nil {
-				if kl.hostile && sc.Format != "txz" {
+				if kl.hostile && sc.Format != "txz" && !flipped {
 					set("escaping-entry-accepted", fmt.Sprintf("request %d returned nil although the archive holds an entry that would escape the destination; such an entry must be rejected with an error", i))
 				}
 				if derr != nil {
